@@ -99,7 +99,7 @@ def canon_tranp(node: Any) -> tuple:
 	name = type(node).__name__
 	if isinstance(node, defs.Group):
 		return canon_tranp(node.expression)
-	if isinstance(node, defs.Var):
+	if isinstance(node, (defs.Var, defs.Declable)):
 		return ('var', node.tokens)
 	if isinstance(node, defs.Integer):
 		return ('int', int(node.tokens))
@@ -163,3 +163,153 @@ def pairs(model: dict, node: Any) -> Iterator[tuple[dict, Any]]:
 def function_nodes(entrypoint: Any) -> list[Any]:
 	import rogw.tranp.syntax.node.definition as defs
 	return [st for st in entrypoint.statements if isinstance(st, defs.Function)]
+
+
+# -- statements -------------------------------------------------------------------------------------------------------
+
+def load_stmt_cases(timeout: int = 600) -> tuple[list[dict], list[dict]]:
+	res = tlc.run('PyStmtEmit', 'PyStmt.cfg', workers=1, timeout=timeout)
+	if res.rc != 0:
+		raise Machinery(f'PyStmt: evaluation error: {res.out[-800:]}')
+	stmts = [json.loads(line) for line in res.lines('STMT ')]
+	defs_ = [json.loads(line) for line in res.lines('DEF ')]
+	if not stmts or not defs_:
+		raise Machinery('PyStmt: no cases emitted')
+	return stmts, defs_
+
+
+def _expr(text: str) -> tuple:
+	return canon_cpython_ext(ast.parse(text, mode='eval').body)
+
+
+def canon_cpython_ext(n: ast.AST) -> tuple:
+	if isinstance(n, ast.Call):
+		return ('call', canon_cpython_ext(n.func), [canon_cpython_ext(a) for a in n.args])
+	if isinstance(n, ast.Attribute):
+		return ('attr', canon_cpython_ext(n.value), n.attr)
+	if isinstance(n, (ast.BinOp, ast.UnaryOp, ast.BoolOp, ast.Compare, ast.IfExp)):
+		# re-use the expression canon with extended leaves
+		return _canon_cpython_with(n)
+	return canon_cpython(n)
+
+
+def _canon_cpython_with(n: ast.AST) -> tuple:
+	if isinstance(n, ast.BinOp):
+		return ('bin', _BIN[type(n.op)], canon_cpython_ext(n.left), canon_cpython_ext(n.right))
+	if isinstance(n, ast.UnaryOp):
+		return ('not', canon_cpython_ext(n.operand)) if isinstance(n.op, ast.Not) else ('un', _UN[type(n.op)], canon_cpython_ext(n.operand))
+	if isinstance(n, ast.BoolOp):
+		op = 'and' if isinstance(n.op, ast.And) else 'or'
+		res = canon_cpython_ext(n.values[0])
+		for v in n.values[1:]:
+			res = ('bool', op, res, canon_cpython_ext(v))
+		return res
+	if isinstance(n, ast.Compare) and len(n.ops) == 1:
+		return ('cmp', _CMP[type(n.ops[0])], canon_cpython_ext(n.left), canon_cpython_ext(n.comparators[0]))
+	if isinstance(n, ast.IfExp):
+		return ('tern', canon_cpython_ext(n.test), canon_cpython_ext(n.body), canon_cpython_ext(n.orelse))
+	return canon_cpython(n)
+
+
+def canon_tranp_ext(node: Any) -> tuple:
+	import rogw.tranp.syntax.node.definition as defs
+	if isinstance(node, defs.FuncCall):
+		return ('call', canon_tranp_ext(node.calls), [canon_tranp_ext(a.value) for a in node.arguments])
+	if isinstance(node, defs.Relay):
+		return ('attr', canon_tranp_ext(node.receiver), node.prop.tokens)
+	if isinstance(node, defs.Group):
+		return canon_tranp_ext(node.expression)
+	if isinstance(node, defs.NotCompare):
+		return ('not', canon_tranp_ext(node.value))
+	if isinstance(node, defs.Factor):
+		return ('un', node.operator.tokens, canon_tranp_ext(node.value))
+	if isinstance(node, defs.TernaryOperator):
+		return ('tern', canon_tranp_ext(node.condition), canon_tranp_ext(node.primary), canon_tranp_ext(node.secondary))
+	if isinstance(node, defs.BinaryOperator):
+		kind = 'bool' if isinstance(node, (defs.OrCompare, defs.AndCompare)) else 'cmp' if isinstance(node, defs.Comparison) else 'bin'
+		elems = node.elements
+		if len(elems) % 2 == 0 or (kind == 'cmp' and len(elems) > 3):
+			return canon_tranp(node)
+		res = canon_tranp_ext(elems[0])
+		for i in range(1, len(elems), 2):
+			res = (kind, elems[i].tokens.replace('.', ' '), res, canon_tranp_ext(elems[i + 1]))
+		return res
+	return canon_tranp(node)
+
+
+def canon_model_stmt(c: dict) -> tuple:
+	k = c['k']
+	if k in ('assign', 'aug', 'ret', 'break', 'continue', 'raise'):
+		return canon_cpython_stmt(ast.parse(c['text']).body[0]) if k not in ('break', 'continue') else (k,)
+	if k == 'if':
+		return ('if', _expr(c['cond']), [canon_model_stmt(s) for s in c['body']], [canon_model_stmt(s) for s in c['orelse']])
+	if k == 'while':
+		return ('while', _expr(c['cond']), [canon_model_stmt(s) for s in c['body']])
+	if k == 'for':
+		return ('for', c['target'], _expr(c['iter']), [canon_model_stmt(s) for s in c['body']])
+	if k == 'try':
+		return ('try', [canon_model_stmt(s) for s in c['body']], c['etype'], c['ename'], [canon_model_stmt(s) for s in c['handler']])
+	raise Machinery(f'unknown model statement {k}')
+
+
+def canon_cpython_stmt(n: ast.stmt) -> tuple:
+	if isinstance(n, ast.Assign):
+		return ('assign', canon_cpython_ext(n.targets[0]), canon_cpython_ext(n.value))
+	if isinstance(n, ast.AugAssign):
+		return ('aug', _BIN[type(n.op)] + '=', canon_cpython_ext(n.target), canon_cpython_ext(n.value))
+	if isinstance(n, ast.Return):
+		return ('ret', canon_cpython_ext(n.value) if n.value else None)
+	if isinstance(n, ast.Break):
+		return ('break',)
+	if isinstance(n, ast.Continue):
+		return ('continue',)
+	if isinstance(n, ast.Raise):
+		return ('raise', canon_cpython_ext(n.exc))
+	if isinstance(n, ast.If):
+		return ('if', canon_cpython_ext(n.test), [canon_cpython_stmt(s) for s in n.body], [canon_cpython_stmt(s) for s in n.orelse])
+	if isinstance(n, ast.While):
+		return ('while', canon_cpython_ext(n.test), [canon_cpython_stmt(s) for s in n.body])
+	if isinstance(n, ast.For):
+		return ('for', n.target.id, canon_cpython_ext(n.iter), [canon_cpython_stmt(s) for s in n.body])
+	if isinstance(n, ast.Try):
+		h = n.handlers[0]
+		return ('try', [canon_cpython_stmt(s) for s in n.body], h.type.id, h.name, [canon_cpython_stmt(s) for s in h.body])
+	raise Machinery(f'canon_cpython_stmt: unsupported {type(n).__name__}')
+
+
+def canon_tranp_stmt(node: Any) -> tuple:
+	import rogw.tranp.syntax.node.definition as defs
+	block = lambda stmts: [canon_tranp_stmt(s) for s in stmts]
+	if isinstance(node, defs.MoveAssign):
+		return ('assign', canon_tranp_ext(_as_ref(node.receivers[0])), canon_tranp_ext(node.value))
+	if isinstance(node, defs.AugAssign):
+		return ('aug', node.operator.tokens, canon_tranp_ext(_as_ref(node.receiver)), canon_tranp_ext(node.value))
+	if isinstance(node, defs.Return):
+		return ('ret', None if isinstance(node.return_value, defs.Empty) else canon_tranp_ext(node.return_value))
+	if isinstance(node, defs.Break):
+		return ('break',)
+	if isinstance(node, defs.Continue):
+		return ('continue',)
+	if isinstance(node, defs.Throw):
+		return ('raise', canon_tranp_ext(node.throws))
+	if isinstance(node, defs.If):
+		orelse = [] if isinstance(node.else_clause, defs.Empty) else block(node.else_clause.statements)
+		for ei in reversed(node.else_ifs):
+			orelse = [('if', canon_tranp_ext(ei.condition), block(ei.statements), orelse)]
+		return ('if', canon_tranp_ext(node.condition), block(node.statements), orelse)
+	if isinstance(node, defs.While):
+		return ('while', canon_tranp_ext(node.condition), block(node.statements))
+	if isinstance(node, defs.For):
+		return ('for', node.symbols[0].tokens, canon_tranp_ext(node.iterates), block(node.statements))
+	if isinstance(node, defs.Try):
+		c = node.catches[0]
+		return ('try', block(node.statements), c.var_type.tokens, c.symbol.tokens, block(c.statements))
+	return ('other', type(node).__name__, node.tokens)
+
+
+def _as_ref(node: Any) -> Any:
+	return node
+
+
+def _var_canon(node: Any) -> tuple:
+	return ('var', node.tokens)
